@@ -419,6 +419,7 @@ func (e *Engine) spellPairs() []spellPair {
 	// key list vs expanded pairs
 	add("key list vs pairs", spellProg("", "", "u8 Kind,\nmatch Kind as Body { [1, 2] : A, 3 : B, },\n"), spellProg("", "", "u8 Kind,\nmatch Kind as Body { 1 : A, 2 : A, 3 : B, },\n"))
 	add("string key list vs pairs", spellProg("", "", "string Kind,\nmatch Kind as Body { [\"a\", \"b\"] : A, \"c\" : B, },\n"), spellProg("", "", "string Kind,\nmatch Kind as Body { \"a\" : A, \"b\" : A, \"c\" : B, },\n"))
+	add("string key list with a comma inside a key", spellProg("", "", "string Kind,\nmatch Kind as Body { [\"a,b\", \"c\"] : A, \"d\" : B, },\n"), spellProg("", "", "string Kind,\nmatch Kind as Body { \"a,b\" : A, \"c\" : A, \"d\" : B, },\n"))
 	add("one-element key list", spellProg("", "", "u8 Kind,\nmatch Kind as Body { [1] : A, 3 : B, },\n"), spellProg("", "", "u8 Kind,\nmatch Kind as Body { 1 : A, 3 : B, },\n"))
 	// MetaData-typed field vs inlined type
 	add("MetaData vs inlined", spellProg("", "MetaData M { u16 Code `c`, char[8] Name, string Text, zchar[4] Z, }\n", "Code c,\nName n,\nText t,\nZ z,\nrepeat Code cs,\nrepeat Name ns,\n"),
